@@ -45,8 +45,8 @@ Print Assumptions C20_align_never_grows.
    per source item; without compression a group has exactly the size psz of its item, with compression at most that -- the li
    near/far choice is the same in both modes because it is taken on constants only (li_dec); the layout after alignment is
    monotone in the group sizes because the offset after `align N` is monotone in the offset before it.)
-   call / tail are excluded: their near/far choice is taken on ESTIMATED distances that differ between the modes; for them this
-   half is decided by the falsifier only -- see DESIGN.md. *)
+   call / tail are excluded HERE (their near/far choice is taken on estimated distances that differ between the modes); they are
+   covered by C20_never_longer_all below under two more hypotheses. *)
 Theorem C20_never_longer_no_label_higher :
   forall its consts0 labels0 rU rC,
     nonneg its -> Monotone.no_calls its ->
@@ -56,6 +56,28 @@ Theorem C20_never_longer_no_label_higher :
       <= fold_right (fun c acc => Pipeline.chunk_len (snd c) + acc) 0 (r_chunks rU).
 Proof. exact Monotone.compression_monotone. Qed.
 Print Assumptions C20_never_longer_no_label_higher.
+(* ... and with call / tail as well, for programs assembled with no labels handed in from outside (labels0 = [], so every label
+   is a label of the program) whose pessimistic size is below 2 GiB (the near / far test wraps the distance to 32 bits):
+   the pseudo pass of the two runs is followed IN LOCKSTEP (Monotone.lockstep) with the invariant that every distance between the
+   current position and a label is, with compression, between 0 and the distance without; so whenever the uncompressed run
+   takes the near form the compressed run does too. *)
+Theorem C20_never_longer_all :
+  forall its consts0 rU rC,
+    nonneg its -> total its < 2 ^ 31 ->
+    assemble_items its consts0 [] false = Done rU -> assemble_items its consts0 [] true = Done rC ->
+    (forall L a b, In L (gnames its) -> assoc_str L (r_labels rU) = Some a -> assoc_str L (r_labels rC) = Some b -> b <= a) /\
+    fold_right (fun c acc => Pipeline.chunk_len (snd c) + acc) 0 (r_chunks rC)
+      <= fold_right (fun c acc => Pipeline.chunk_len (snd c) + acc) 0 (r_chunks rU).
+Proof. exact Monotone.compression_monotone_all. Qed.
+Print Assumptions C20_never_longer_all.
+Example C20_never_longer_all_example :      (* the example program of C03 (j / call / align / beq / dw): hypotheses hold *)
+  nonneg ex_its /\ total ex_its < 2 ^ 31 /\
+  (exists r, assemble_items ex_its [] [] false = Done r) /\ (exists r, assemble_items ex_its [] [] true = Done r).
+Proof.
+  split. exact ex_nonneg. split. vm_compute. reflexivity.
+  split. destruct ex_runs_u as (r & H & _). eauto. destruct ex_runs_c as (r & H & _). eauto.
+Qed.
+
 Example C20_never_longer_example :          (* add / L: / li (far) / align 8 / M: / dw : hypotheses hold, labels really move *)
   let its := [(exL 1, exR3 "add" "x8" "x8" "x9"); (exL 2, ILabel "L");
               (exL 3, IPseudo "li" ["t0"; "0x12345"] (POk (EArith (ANum 74565))));
